@@ -86,6 +86,26 @@ FIRST.update({
  "C16d": ("missed", "struct driver: open / close orderings over ten banks (holes, then lowest / highest / middle key)"),
  "C19d": ("missed", "admin driver: permissionless payouts before a destination was chosen (also for a second account)"),
 })
+NEEDS.update({
+ "C04e": "Kamino bank priced by Pyth whose EMA confidence differs from the spot confidence times the reserve rate",
+ "C04f": "tagged collateral, two debts: one in a bank with a matching e-mode entry, one in a bank with e-mode off",
+ "C06c": "bank with insurance fees but no group fees; debt; time passing", "C06d": "bank idle (deposits, no debt) for a while, first borrow, then any accrual",
+ "C07c": "solvent account whose collateral bank is reduce-only; bankruptcy attempt", "C07d": "redundant configure_bank(permissionless_bad_debt = false) on a bank that never opted in, then settlement by a stranger",
+ "C10c": "transaction [non-whitelisted instruction of a venue program (or a refresh discriminator at another program), start, ..., end]",
+ "C10d": "unhealthy account holding an isolated-tier (zero-weight) deposit; receiver withdraws it inside the bracket",
+ "C14c": "pause propagated to the group, not re-propagated; financial instruction exactly at pause start + 1800 s",
+ "C14d": "classic liquidation whose liability bank is paused",
+ "C17c": "deposit_up_to_limit with amount >= remaining capacity while the bank's deposits are a whole number of units",
+ "C17d": "bank whose borrow limit is exactly 0",
+})
+FIRST.update({
+ "C06c": ("missed", "ledger driver: every combination of absent / present insurance and group fees; ledgerfee model bank B2 charges insurance fees only"),
+ "C07c": ("missed", "liq driver: bankruptcy attempts on the still-solvent account with the collateral bank reduce-only / paused / as is (recorded forks)"),
+ "C07d": ("missed", "C07 keeps the history of what the admin asked for (clause permissionless_only_where_the_admin_opted_in); liq driver issues a redundant 'off' before the stranger's attempt"),
+ "C10c": ("missed", "TxShape symbols KREF / DREF (whitelisted refreshes), KOTH (another venue instruction), JREF (refresh discriminator at another program); Recv3 instance; PreStartOk requires program AND instruction"),
+ "C10d": ("missed", "C10 clause value_taken_from_positions_the_end_checks_cannot_see_counts_as_seized; recv driver: isolated-tier and zero-initial-weight deposits, receiver withdrawals from them"),
+ "C14d": ("missed", "liq driver: an acceptable liquidation retried with the liability / collateral bank paused and reduce-only (recorded forks)"),
+})
 for d in sorted(os.listdir(os.path.join(ROOT, "seeded"))):
     mp = os.path.join(ROOT, "seeded", d, "meta.json")
     rp = os.path.join(ROOT, "seeded", d, "result.txt")
